@@ -120,7 +120,8 @@ Theorem printing_uses_display : forall o,
 Proof. exact SymbolsProofs.printing_uses_display. Qed.
 Print Assumptions printing_uses_display.
 
-Theorem printing_bare_uses_display : forall o, okind o = KIndexed -> pp_bare o = PText (odisplay o).
+Theorem printing_bare_uses_display : forall o,
+  okind o = KIndexed \/ okind o = KFunction -> pp_bare o = PText (odisplay o).
 Proof. exact SymbolsProofs.printing_bare_uses_display. Qed.
 Print Assumptions printing_bare_uses_display.
 
